@@ -1,6 +1,6 @@
 (** SETTINGS rules of parseSettingsFrame: duplicates, boolean settings, size limit. *)
 From Coq Require Import List ZArith Bool Lia.
-From V Require Import Gen.Params Lib.Hex Wire.Varint Wire.VarintProofs H3Stream.Model H3Stream.Proofs.
+From V Require Import Gen.Params Lib.Hex Wire.Varint Wire.VarintProofs H3Stream.Model H3Stream.Proofs H3Stream.ProofsStream.
 Import ListNotations.
 Open Scope Z_scope.
 
@@ -237,4 +237,120 @@ Proof.
     + intros [fr H]. exact (settings_accept_sound ps fr Hok H).
     + intros [H1 H2]. exact (settings_accept_complete ps Hok H1 H2).
   - exact settings_oversize.
+Qed.
+
+(** * The values of an accepted SETTINGS frame *)
+Definition pair_val (id : Z) (ps : list (Z * Z)) : option Z :=
+  match find (fun p => fst p =? id) ps with Some p => Some (snd p) | None => None end.
+
+Definition unknown_setting (p : Z * Z) : bool :=
+  negb ((fst p =? h3SettingMaxFieldSectionSize) || (fst p =? h3SettingExtendedConnect) || (fst p =? h3SettingDatagram)).
+
+Lemma pair_val_none (id : Z) (ps : list (Z * Z)) : ~ In id (map fst ps) -> pair_val id ps = None.
+Proof.
+  unfold pair_val. induction ps as [|[a b] ps IH]; cbn; intros H; [reflexivity|].
+  destruct (Z.eqb_spec a id) as [E|E]; [exfalso; apply H; auto|]. apply IH. intros Hi. apply H. auto.
+Qed.
+
+Lemma settings_pairs_values : forall (ps : list (Z * Z)) (fr : settings) (rm rd re : bool) (fr' : settings),
+  (forall id, In id (map fst (st_other fr)) -> ~ known_id id) ->
+  settings_pairs ps fr rm rd re = inr fr' ->
+  st_other fr' = st_other fr ++ filter unknown_setting ps /\
+  st_mfs fr' = match pair_val h3SettingMaxFieldSectionSize ps with Some v => v | None => st_mfs fr end /\
+  st_ec fr' = match pair_val h3SettingExtendedConnect ps with Some v => v =? 1 | None => st_ec fr end /\
+  st_dg fr' = match pair_val h3SettingDatagram ps with Some v => v =? 1 | None => st_dg fr end.
+Proof.
+  induction ps as [|[id val] ps IH]; intros fr rm rd re fr' Hoth H.
+  - cbn in H. inversion H; subst. cbn. rewrite app_nil_r. auto.
+  - pose proof H as Hfull. cbn [settings_pairs] in H.
+    unfold pair_val, unknown_setting, known_id, h3SettingMaxFieldSectionSize, h3SettingExtendedConnect, h3SettingDatagram in *.
+    cbn [find filter fst snd].
+    destruct (Z.eqb_spec id 6) as [E6|E6].
+    { subst id. destruct rm; [discriminate|]. cbn [Z.eqb orb negb].
+      pose proof H as H'. eapply settings_pairs_sound in H'; [|exact Hoth]. destruct H' as (_ & _ & Hm & _).
+      unfold h3SettingMaxFieldSectionSize in Hm. specialize (Hm eq_refl).
+      eapply IH in H; [|exact Hoth]. destruct H as (I1 & I2 & I3 & I4). cbn [st_other st_mfs st_ec st_dg] in *.
+      fold (pair_val 6 ps) in I2. rewrite (pair_val_none 6 ps Hm) in I2. auto. }
+    destruct (Z.eqb_spec id 8) as [E8|E8].
+    { subst id. destruct re; [discriminate|]. cbn [Z.eqb orb negb].
+      destruct (negb ((val =? 0) || (val =? 1))); [discriminate|].
+      pose proof H as H'. eapply settings_pairs_sound in H'; [|exact Hoth]. destruct H' as (_ & _ & _ & He & _).
+      unfold h3SettingExtendedConnect in He. specialize (He eq_refl).
+      eapply IH in H; [|exact Hoth]. destruct H as (I1 & I2 & I3 & I4). cbn [st_other st_mfs st_ec st_dg] in *.
+      fold (pair_val 8 ps) in I3. rewrite (pair_val_none 8 ps He) in I3. auto. }
+    destruct (Z.eqb_spec id 51) as [E51|E51].
+    { subst id. destruct rd; [discriminate|]. cbn [Z.eqb orb negb].
+      destruct (negb ((val =? 0) || (val =? 1))); [discriminate|].
+      pose proof H as H'. eapply settings_pairs_sound in H'; [|exact Hoth]. destruct H' as (_ & _ & _ & _ & Hd & _).
+      unfold h3SettingDatagram in Hd. specialize (Hd eq_refl).
+      eapply IH in H; [|exact Hoth]. destruct H as (I1 & I2 & I3 & I4). cbn [st_other st_mfs st_ec st_dg] in *.
+      fold (pair_val 51 ps) in I4. rewrite (pair_val_none 51 ps Hd) in I4. auto. }
+    cbn [orb negb].
+    destruct (existsb (fun p => fst p =? id) (st_other fr)) eqn:Ex; [discriminate|].
+    assert (Hoth' : forall i, In i (map fst (st_other fr ++ [(id, val)])) -> ~ (i = 6 \/ i = 8 \/ i = 51)).
+    { intros i Hi. rewrite map_app, in_app_iff in Hi. destruct Hi as [Hi|[Hi|[]]]; [exact (Hoth i Hi)|].
+      cbn in Hi. subst i. lia. }
+    eapply IH in H; [|exact Hoth']. destruct H as (I1 & I2 & I3 & I4). cbn [st_other st_mfs st_ec st_dg] in *.
+    rewrite <- app_assoc in I1. auto.
+Qed.
+
+Theorem settings_values (ps : list (Z * Z)) (fr : settings) :
+  Forall pair_ok ps -> settings_payload (enc_pairs ps) = inr fr ->
+  st_other fr = filter unknown_setting ps /\
+  st_mfs fr = match pair_val h3SettingMaxFieldSectionSize ps with Some v => v | None => -1 end /\
+  st_ec fr = match pair_val h3SettingExtendedConnect ps with Some v => v =? 1 | None => false end /\
+  st_dg fr = match pair_val h3SettingDatagram ps with Some v => v =? 1 | None => false end.
+Proof.
+  intros Hok H. rewrite settings_payload_pairs in H by exact Hok.
+  eapply settings_pairs_values in H; [exact H|intros i []].
+Qed.
+
+(** * SETTINGS and GOAWAY through ParseNext *)
+Lemma parse_next_settings_frame (f : nat) (s : src) (cl : option Z) (th lh pl rest : list Z) (fr : settings) :
+  benign s -> venc th 4 -> venc lh (zlen pl) -> zlen pl <= maxSettingsLen ->
+  settings_payload pl = inr fr -> s_data s = th ++ lh ++ pl ++ rest ->
+  exists s', parse_next (S f) s cl = (inr (FSettings fr), s', cl) /\ s_data s' = rest.
+Proof.
+  intros Hb Ht Hl Hlen Hp Hd.
+  destruct (read_header s th lh 4 (zlen pl) (pl ++ rest) Hb Ht Hl Hd) as (s1 & s2 & H1 & H2 & H3 & H4).
+  destruct (read_full_app (fuel_of s2) s2 pl rest [] H3) as (s3 & H5 & H6 & _).
+  { unfold fuel_of. rewrite H3, app_length. lia. }
+  cbn [parse_next]. rewrite H1, H2. cbn [Z.eqb Pos.eqb].
+  unfold parse_settings. destruct (Z.gtb_spec (zlen pl) maxSettingsLen); [lia|].
+  rewrite H5. cbn [app]. rewrite Hp. cbn [map_err]. eauto.
+Qed.
+
+Lemma parse_next_goaway_frame (f : nat) (s : src) (cl : option Z) (th lh ie rest : list Z) (l id : Z) :
+  benign s -> venc th 7 -> venc lh l -> venc ie id -> s_data s = th ++ lh ++ ie ++ rest ->
+  exists s', parse_next (S f) s cl =
+               ((if zlen ie =? l then inr (FGoaway id) else inl EGoawayLen), s', cl) /\ s_data s' = rest.
+Proof.
+  intros Hb Ht Hl Hi Hd.
+  destruct (read_header s th lh 7 l (ie ++ rest) Hb Ht Hl Hd) as (s1 & s2 & H1 & H2 & H3 & H4).
+  destruct (read_varint_venc s2 ie id rest (benign_same_end _ _ H4 Hb) Hi H3) as (s3 & H5 & H6 & _).
+  cbn [parse_next]. rewrite H1, H2. cbn [Z.eqb Pos.eqb].
+  unfold parse_goaway. rewrite H5. exists s3. split; [|exact H6].
+  destruct (zlen ie =? l); cbn [map_err truncated is_eof andb]; [reflexivity|].
+  destruct (s_data s); reflexivity.
+Qed.
+
+Lemma settings_goaway_through_parser :
+  (forall (f : nat) (s : src) (cl : option Z) (th lh rest : list Z) (ps : list (Z * Z)) (fr : settings),
+     benign s -> venc th 4 -> venc lh (zlen (enc_pairs ps)) -> zlen (enc_pairs ps) <= 8192 -> Forall pair_ok ps ->
+     settings_payload (enc_pairs ps) = inr fr -> s_data s = th ++ lh ++ enc_pairs ps ++ rest ->
+     (exists s', parse_next (S f) s cl = (inr (FSettings fr), s', cl) /\ s_data s' = rest) /\
+     st_other fr = filter unknown_setting ps /\
+     st_mfs fr = match pair_val h3SettingMaxFieldSectionSize ps with Some v => v | None => -1 end /\
+     st_ec fr = match pair_val h3SettingExtendedConnect ps with Some v => v =? 1 | None => false end /\
+     st_dg fr = match pair_val h3SettingDatagram ps with Some v => v =? 1 | None => false end) /\
+  (forall (f : nat) (s : src) (cl : option Z) (th lh ie rest : list Z) (l id : Z),
+     benign s -> venc th 7 -> venc lh l -> venc ie id -> s_data s = th ++ lh ++ ie ++ rest ->
+     exists s', parse_next (S f) s cl =
+                  ((if zlen ie =? l then inr (FGoaway id) else inl EGoawayLen), s', cl) /\ s_data s' = rest).
+Proof.
+  split.
+  - intros f s cl th lh rest ps fr Hb Ht Hl Hlen Hok Hp Hd. split.
+    + exact (parse_next_settings_frame f s cl th lh (enc_pairs ps) rest fr Hb Ht Hl Hlen Hp Hd).
+    + exact (settings_values ps fr Hok Hp).
+  - exact parse_next_goaway_frame.
 Qed.
